@@ -5,6 +5,7 @@ models.VolumeModel, solver.residual, the Krylov matvec closure in
 solver.krylov.  Everything (widths, eta, zeta, fields) is a solver variable;
 per grid shape the solver decides polynomial identities.
 """
+import os
 import time
 import itertools
 from fractions import Fraction
@@ -805,6 +806,31 @@ def main(tier):
         seconds=round(time.time()-t0, 2)))
     if not worst < 1e-12:
         run.error(f"jit kernel deviates from python source: {worst}")
+
+    # the repository's own kernel tests, run against the shadow package on
+    # their concrete inputs: the symx proxies must be invisible (DESIGN 5.4a)
+    t0 = time.time()
+    import subprocess
+    import sys as _sys
+    from .common import VERIF
+    tests = "test_core.py test_maps.py" if tier == 'quick' else \
+        "test_core.py test_maps.py test_fields.py test_models.py"
+    env = dict(os.environ, SHADOW_TESTS=tests,
+               PYTHONPATH=VERIF+os.pathsep+os.environ.get('PYTHONPATH', ''))
+    try:
+        r = subprocess.run([_sys.executable, os.path.join(
+            VERIF, 'tools', 'validate_shadow.py')], env=env,
+            capture_output=True, text=True, timeout=3000)
+        last = (r.stdout.strip().splitlines() or ['?'])[-1]
+        ok = r.returncode == 0
+    except Exception as e:     # noqa
+        last, ok = repr(e), False
+    run.validation.append(dict(
+        what=f"repository tests ({tests}) run against the shadow package "
+             f"(proxies on concrete inputs)", result=last, ok=ok,
+        seconds=round(time.time()-t0, 2)))
+    if not ok:
+        run.error(f"repository tests fail on the shadow package: {last}")
 
     run.bounds = dict(
         operator_shapes=f"{len(shapes)} shapes, cells per direction in "
